@@ -185,7 +185,7 @@ def conversion_cases(ctx, si, batch):
              'J/mol', 'kcal/mol', 'kJ/mol', 'cal/(mol K)', 'J/(mol K)', 'K', 'mol', 'molecule', 'Pa', 'atm', 'bar', 'torr', 'psi',
              'L', 'm^3', 'cm^3', 'N', 'dyn', 'lbf', 'W', 'hp', 'P', 'Pa s', 'St', 'm^2/s', 'm/s', 'ft/min', 'V', 'C', 'A s', 'Ohm', 'F',
              'cd', 'A', '1/s', 'm^0.5', 'kg m/s^2', 'g cm/s^2']
-    n = ctx.n(700, 12000)
+    n = ctx.n(700, 20000)
     for i in range(n):
         a = rng.choice(exprs)
         b = rng.choice(exprs) if rng.random() < 0.6 else a
@@ -262,6 +262,8 @@ def run(ctx):
 
 
 def _run(ctx):
+    if not L.importable(ctx):
+        return
     rng = ctx.rng
     si = L.SI(ctx)
     batch = []
@@ -312,7 +314,7 @@ def _run(ctx):
     # 3. random deeper trees (all names x prefixes as leaves), some with unknown names / zero divisors
     names = L.all_names(si)
     trees = []
-    for i in range(ctx.n(5000, 200000)):
+    for i in range(ctx.n(5000, 400000)):
         depth = rng.choice([1, 2, 2, 3, 4])
         bad = rng.random() < 0.08
         t = L.gen_expr(rng, si, depth, names, allow_bad=bad)
@@ -326,13 +328,13 @@ def _run(ctx):
     # 4. malformed: fixed list (expected: UnitsParseError), token mutations of valid expressions (outcome class only)
     for text in MALFORMED:
         check_text(ctx, text, batch, 'malformed_fixed', expect='unitsParse')
-    for i in range(ctx.n(2500, 60000)):
+    for i in range(ctx.n(2500, 120000)):
         toks = mutate(rng, rng.choice(trees))
         if any(len(t) > 4000 for t in toks):
             continue
         check_text(ctx, L.join_tokens(rng, toks, tight=rng.choice([0.0, 0.5, 1.0])), batch, 'malformed_mutation')
     # 5. the scanner on random character strings
-    for text in scanner_strings(rng, ctx.n(1500, 30000)):
+    for text in scanner_strings(rng, ctx.n(1500, 60000)):
         r = impl_tokens(text)
         ctx.case(None)
         ctx.count('scanner')
@@ -428,6 +430,8 @@ def conversion_replay(ctx, si, inp):
 
 def replay(ctx, rec):
     with L.quiet():
+        if 'import' in rec.get('input', rec):
+            return L.importable(ctx)
         ctx.driver_ok = True
         si = L.SI(ctx)
         return _replay(ctx, si, rec, [])
